@@ -95,12 +95,14 @@ def oidText (c : Bytes) : Bytes :=
 
 def digit2 (a b : Nat) : Nat := (a - 48) * 10 + (b - 48)
 
-/-- UTCTime `YYMMDDhhmm[ss]Z` → `YYYY-MM-DDThh:mmZ` (years 50..99 are 19YY, 00..49 are 20YY — RFC 5280) -/
+/-- UTCTime `YYMMDDhhmm[ss]Z` → `YYYY-MM-DDThh:mm:ssZ` (years 50..99 are 19YY, 00..49 are 20YY — RFC 5280; seconds 00 when
+    the encoding has none) -/
 def utcText (c : Bytes) : Bytes :=
   match c with
-  | y1 :: y2 :: mo1 :: mo2 :: d1 :: d2 :: h1 :: h2 :: mi1 :: mi2 :: _ =>
+  | y1 :: y2 :: mo1 :: mo2 :: d1 :: d2 :: h1 :: h2 :: mi1 :: mi2 :: rest =>
     let yy := digit2 y1 y2
-    (if yy ≥ 50 then [49, 57] else [50, 48]) ++ [y1, y2, 45, mo1, mo2, 45, d1, d2, 84, h1, h2, 58, mi1, mi2, 90]
+    (if yy ≥ 50 then [49, 57] else [50, 48]) ++ [y1, y2, 45, mo1, mo2, 45, d1, d2, 84, h1, h2, 58, mi1, mi2] ++ [58] ++
+      (match rest with | [s1, s2, _] => [s1, s2] | _ => [48, 48]) ++ [90]
   | _ => []
 
 /-- the value text for a primitive (well-formed content assumed, see `WfPrim`) -/
